@@ -186,6 +186,38 @@ func (l *c15Local) watch(ctx context.Context, name string, replay bool, key stri
 	return w
 }
 
+// watchLate subscribes like watch(..., -1) but its reader takes the first event only after the thread's next
+// scheduling point: a slow consumer. Whatever was written in between must still be shown to it.
+func (l *c15Local) watchLate(ctx context.Context, name string, replay bool, key string) *c15Watcher {
+	w := &c15Watcher{Name: name, Replay: replay, Key: key}
+	l.e.mu.Lock()
+	l.e.watchers = append(l.e.watchers, w)
+	l.e.mu.Unlock()
+	next, err := l.e.st.Watch(ctx, replay, key)
+	w.Since = l.t.Tick()
+	if err != nil {
+		w.WatchErr = err.Error()
+		return w
+	}
+	w.Live = true
+	l.yield()
+	go func() {
+		for {
+			r, ok := next()
+			if !ok {
+				l.e.mu.Lock()
+				w.Closed = true
+				l.e.mu.Unlock()
+				return
+			}
+			l.e.mu.Lock()
+			w.Seen = append(w.Seen, r)
+			l.e.mu.Unlock()
+		}
+	}()
+	return w
+}
+
 // yield is a scheduling point without an RPC.
 func (l *c15Local) yield() { l.t.x.arrive(fmt.Sprint(l.t.ID), "yield") }
 
@@ -291,6 +323,13 @@ func c15Scenarios(thorough bool) []c15Scenario {
 			}),
 			mk(e, "Wa", func(l *c15Local) { l.watch(l.t.Ctx(), "Wa", true, "", -1) }),
 			mk(e, "W1", func(l *c15Local) { l.get("k"); l.update("k", 1, false); l.update("k", 2, true) }),
+		}
+	}})
+	scs = append(scs, c15Scenario{Name: "a slow watcher of all records (starts reading late), a prompt watcher of one existing record, a writer of two records", Keys: []string{"k"}, Threads: func(e *c15Env) []E2Thread {
+		return []E2Thread{
+			mk(e, "Ws", func(l *c15Local) { l.yield(); l.watchLate(l.t.Ctx(), "Ws", false, "") }),
+			mk(e, "Wk", func(l *c15Local) { l.watch(l.t.Ctx(), "Wk", true, "k", -1) }),
+			mk(e, "W1", func(l *c15Local) { l.get("k"); l.update("k", 1, false); l.create("n", 5); l.update("n", 6, true) }),
 		}
 	}})
 	if thorough {
